@@ -23,7 +23,7 @@ namespace nfl { void fastrandombytes(unsigned char* r, unsigned long long len) {
 #include "nfl/prng/FastGaussianNoise.hpp"
 #undef private
 
-static bool quiet, probes;
+static bool quiet, probes; static long second_len = -1; static size_t first_consumed = 0;   // tag s<k>: getNoise(rlen) then getNoise(k) on the SAME object; the outputs and requests of the second call are reported
 template <class IN, unsigned D> static void run(double sigma, unsigned lambda, unsigned m, const std::string& center, const std::string& ctor, unsigned long rlen, std::ostringstream& os) {
   typedef nfl::FastGaussianNoise<IN, uint32_t, D> G;
   // the object is built in storage that held other data before (0x5a pattern): a member a constructor forgets to set is then visibly indeterminate
@@ -37,6 +37,11 @@ template <class IN, unsigned D> static void run(double sigma, unsigned lambda, u
   reqs.clear(); tpos = 0; exhausted = false;
   if (probes) { for (unsigned long i = 0; i < rlen; i++) g->getNoise(out.data() + 2 + i, 1); }   // rlen independent one-sample requests
   else g->getNoise(out.data() + 2, rlen);
+  if (second_len >= 0) {
+    first_consumed = tpos; reqs.clear();
+    rlen = (unsigned long)second_len; out.assign(rlen + 4, 0xDEADBEEFu);
+    g->getNoise(out.data() + 2, rlen);
+  }
   os << " | out=";
   for (unsigned long i = 0; i < rlen; i++) os << " " << (int32_t)out[2 + i];
   os << ((out[0] == 0xDEADBEEFu && out[1] == 0xDEADBEEFu && out[rlen + 2] == 0xDEADBEEFu && out[rlen + 3] == 0xDEADBEEFu) ? "" : " OUTPUT-OVERRUN");
@@ -48,14 +53,14 @@ int main() {
   while (std::getline(std::cin, line)) {
     std::istringstream is(line); std::string tag, center, ctor, tk, hex; unsigned inb, depth, lambda, m; double sigma; unsigned long rlen;
     if (!(is >> tag >> inb >> depth >> sigma >> lambda >> m >> center >> ctor >> rlen >> tk >> hex)) continue;
-    quiet = (tag == "q" || tag == "p"); probes = (tag == "p");
+    quiet = (tag == "q" || tag == "p" || tag[0] == 's'); probes = (tag == "p"); second_len = tag[0] == 's' ? atol(tag.c_str() + 1) : -1; first_consumed = 0;
     tape.clear();
     if (hex != "-") for (size_t i = 0; i + 1 < hex.size(); i += 2) tape.push_back((unsigned char)strtoul(hex.substr(i, 2).c_str(), 0, 16));
     if (inb == 8 && depth == 1) run<uint8_t, 1>(sigma, lambda, m, center, ctor, rlen, os);
     else if (inb == 8 && depth == 2) run<uint8_t, 2>(sigma, lambda, m, center, ctor, rlen, os);
     else if (inb == 16 && depth == 1) run<uint16_t, 1>(sigma, lambda, m, center, ctor, rlen, os);
     else run<uint16_t, 2>(sigma, lambda, m, center, ctor, rlen, os);
-    os << " | reqs="; for (size_t r : reqs) os << r << ","; os << " consumed=" << tpos << (exhausted ? " EXHAUSTED" : "") << "\n";
+    os << " | reqs="; for (size_t r : reqs) os << r << ","; os << " consumed=" << tpos << " first=" << first_consumed << (exhausted ? " EXHAUSTED" : "") << "\n";
   }
   fputs(os.str().c_str(), stdout);
   return 0;
